@@ -703,6 +703,410 @@ fn run_dbg(ctx: &mut Ctx) {
         c.ev(n); ensure!(bad_n == 0, "dict_match_wrong", "{bad_n}/{n} wrong matches; {first}"); Ok(()) }); }
 }
 
+// ============================================================================================================
+// gap families: public functions of the anchor files the families above never call
+// ============================================================================================================
+use zipora::compression::dict_zip::{
+    calculate_encoding_overhead, calculate_theoretical_compression_ratio, calculate_compression_efficiency, choose_best_compression_type, get_back_ref_encoding_meta,
+    write_uint_bytes, write_var_size_t, CompressionStats as PzStats, CompressionType, ConcurrentSuffixArrayDictionary, DzType, LocalMatcher, LocalMatcherConfig, ReferenceEncoder,
+};
+use zipora::compression::realtime::RealtimeCompressorBuilder;
+use zipora::compression::suffix_array::{SuffixArrayCompressor, SuffixArrayConfig};
+use std::sync::Arc;
+
+// ---- reference (byte-level) token encoder: ReferenceEncoder::encode_* parsed back by a model decoder written from the C++ layout
+// quoted in the doc comments of reference_encoding.rs (the library has no decoder for this format)
+#[derive(Debug, Clone, PartialEq)]
+enum RefTok { Lit(Vec<u8>), Global(u32, usize), Back(u8, usize, usize) } // Back(type, distance, length)
+fn read_var(z: &[u8], p: &mut usize) -> Option<usize> { let mut v = 0usize; let mut sh = 0u32; loop { let b = *z.get(*p)?; *p += 1; if sh >= 64 { return None; } v |= ((b & 0x7F) as usize) << sh; sh += 7; if b & 0x80 == 0 { return Some(v); } } }
+fn read_le(z: &[u8], p: &mut usize, n: usize) -> Option<usize> { let mut v = 0usize; for i in 0..n { v |= (*z.get(*p + i)? as usize) << (8 * i); } *p += n; Some(v) }
+/// model decoder (g_offset_bits == 24): None = malformed
+fn ref_decode(z: &[u8], gmax: usize) -> Option<Vec<RefTok>> {
+    let mut p = 0usize; let mut out = Vec::new();
+    while p < z.len() {
+        let b = z[p]; p += 1; let t = b & 7; let v = (b >> 3) as usize;
+        match t {
+            0 => { let l = v + 1; let d = z.get(p..p + l)?.to_vec(); p += l; out.push(RefTok::Lit(d)); }
+            1 => { let pos = read_le(z, &mut p, 3)?; let len = if v < 31 { v + 6 } else { read_var(z, &mut p)? + gmax + 1 }; out.push(RefTok::Global(pos as u32, len)); }
+            2 => out.push(RefTok::Back(2, 1, v + 2)),
+            3 => out.push(RefTok::Back(3, (b >> 5) as usize + 2, (v & 3) + 2)),
+            4 => { let d = read_le(z, &mut p, 1)? + 2; out.push(RefTok::Back(4, d, v + 2)); }
+            5 => { let d = read_le(z, &mut p, 2)? + 258; out.push(RefTok::Back(5, d, v + 2)); }
+            6 => { let len = if v < 31 { v + 34 } else { read_var(z, &mut p)? + 65 }; let d = read_le(z, &mut p, 2)?; out.push(RefTok::Back(6, d, len)); }
+            _ => { let len = if v < 31 { v + 5 } else { read_var(z, &mut p)? + 36 }; let d = read_le(z, &mut p, 3)?; out.push(RefTok::Back(7, d, len)); }
+        }
+    }
+    Some(out)
+}
+fn big_len(r: &mut Rng, lo: usize) -> usize { match r.below(6) { 0 => lo, 1 => lo + r.usize_below(40), 2 => *r.pick(&[64usize, 65, 66, 67, 127, 128, 129, 163, 164, 192, 193, 194, 255, 256, 16383, 16384, 16448, 16449, 16450, 65535, 65536]).max(&lo), 3 => lo + r.usize_below(70_000), 4 => lo + r.usize_below(1 << 30), _ => lo + r.usize_below(300) } }
+/// a token within the documented (debug_assert'ed) operand ranges of the encoder for type `t`
+fn gen_ref_tok(r: &mut Rng, t: u8, gmax: usize) -> RefTok {
+    match t {
+        0 => { let l = *r.pick(&[1usize, 2, 31, 32, 33, 63, 64, 65, 100]); let l = if r.bool() { l } else { 1 + r.usize_below(100) }; RefTok::Lit(r.bytes(l)) }
+        1 => { let len = if r.bool() { 6 + r.usize_below(40) } else { big_len(r, 6) }; RefTok::Global(*r.pick(&[0u32, 1, 255, 256, 65535, 65536, 0xFF_FFFF]) ^ if r.bool() { r.below(1 << 24) as u32 } else { 0 }, len.max(6).min(gmax.max(6) + (1 << 30))) }
+        2 => RefTok::Back(2, 1, r.urange(2, 33)),
+        3 => RefTok::Back(3, r.urange(2, 9), r.urange(2, 5)),
+        4 => { let (a, b) = (r.urange(2, 257), r.urange(2, 33)); RefTok::Back(4, *r.pick(&[2usize, 3, 9, 10, 255, 256, 257, a]), *r.pick(&[2usize, 5, 6, 32, 33, b])) }
+        5 => { let (a, b) = (r.urange(258, 65793), r.urange(2, 33)); RefTok::Back(5, *r.pick(&[258usize, 259, 65535, 65536, 65792, 65793, a]), *r.pick(&[2usize, 33, b])) }
+        6 => { let a = r.urange(0, 65535); let d = *r.pick(&[0usize, 1, 257, 258, 65534, 65535, a]); RefTok::Back(6, d, big_len(r, 34)) }
+        _ => { let a = r.urange(0, (1 << 24) - 1); let d = *r.pick(&[0usize, 1, 65535, 65536, 65793, 65794, (1 << 24) - 1, a]); RefTok::Back(7, d, big_len(r, 5)) }
+    }
+}
+fn ref_encode(e: &mut ReferenceEncoder<Vec<u8>>, t: &RefTok, gmax: usize) -> zipora::error::Result<()> {
+    match t {
+        RefTok::Lit(d) => e.encode_literal(d),
+        RefTok::Global(p, l) => e.encode_global(*p, *l, 24, gmax),
+        RefTok::Back(2, _, l) => e.encode_rle(*l), RefTok::Back(3, d, l) => e.encode_near_short(*d, *l), RefTok::Back(4, d, l) => e.encode_far1_short(*d, *l),
+        RefTok::Back(5, d, l) => e.encode_far2_short(*d, *l), RefTok::Back(6, d, l) => e.encode_far2_long(*d, *l), RefTok::Back(_, d, l) => e.encode_far3_long(*d, *l),
+    }
+}
+/// what the model decoder must give back: literals longer than 32 bytes are split into 32-byte tokens by the encoder
+fn ref_expect(toks: &[RefTok]) -> Vec<RefTok> { let mut out = Vec::new(); for t in toks { match t { RefTok::Lit(d) => { for ch in d.chunks(32) { out.push(RefTok::Lit(ch.to_vec())); } } o => out.push(o.clone()) } } out }
+fn refenc_case(c: &mut Case, only: Option<u8>) -> Res {
+    let gmax = *c.rng.pick(&[6usize, 7, 20, 36]); // (<= 36: the short form's 5-bit length field cannot collide with the escape value 31)
+    let n = if only.is_some() { 1 } else { 1 + c.rng.usize_below(12) };
+    let toks: Vec<RefTok> = (0..n).map(|_| { let t = only.unwrap_or_else(|| c.rng.below(8) as u8); gen_ref_tok(&mut c.rng, t, gmax) }).collect();
+    c.input_str("tokens", &format!("gmax={gmax} {:?}", toks.iter().map(|t| match t { RefTok::Lit(d) => format!("Lit[{}]", d.len()), o => format!("{o:?}") }).collect::<Vec<_>>()));
+    c.hash_more(format!("{toks:?}").as_bytes()); c.set_nontrivial(true);
+    let mut e = ReferenceEncoder::new(Vec::new());
+    for t in &toks { match nopanic("ReferenceEncoder::encode_*", || ref_encode(&mut e, t, gmax))? { Ok(()) => {} Err(err) => { c.note("encode_err", 1); c.log(format!("{err}")); c.set_nontrivial(false); return Ok(()); } } }
+    let z = e.into_writer();
+    // the type the library's own selector picks for a back-reference must be the one whose operand layout can hold it
+    for t in &toks { if let RefTok::Back(ty, d, l) = t { let m = get_back_ref_encoding_meta(*d, *l); if *d >= 1 && m.dz_type.as_u8() == *ty { c.note("selector_same_type", 1); } } }
+    c.ev(1);
+    let got = ref_decode(&z, gmax);
+    let want = ref_expect(&toks);
+    ensure!(got.as_ref() == Some(&want), "refenc_roundtrip", "tokens {:?} encoded as {} parse back (documented layout) as {:?}", want.iter().map(|t| match t { RefTok::Lit(d) => format!("Lit[{}]", d.len()), o => format!("{o:?}") }).collect::<Vec<_>>(), gen::abbrev(&z),
+        got.map(|g| g.iter().map(|t| match t { RefTok::Lit(d) => format!("Lit[{}]", d.len()), o => format!("{o:?}") }).collect::<Vec<_>>()));
+    // first byte carries the type in its low 3 bits (DzType::from_u8 inverts as_u8)
+    let t0 = nopanic("DzType::from_u8", || DzType::from_u8(z[0] & 7))?; ensure!(t0.is_ok(), "dztype_from_u8", "from_u8({}) refused", z[0] & 7);
+    ensure!(DzType::from_u8(8 + (z[0] & 7)).is_err(), "dztype_from_u8", "from_u8 accepted a value > 7");
+    Ok(())
+}
+fn refenc_prims_case(c: &mut Case) -> Res {
+    let v: usize = match c.rng.below(5) { 0 => *c.rng.pick(&[0usize, 1, 127, 128, 129, 16383, 16384, 16385, (1 << 21) - 1, 1 << 21, u32::MAX as usize, usize::MAX]), 1 => c.rng.usize_below(300), 2 => c.rng.usize_below(1 << 22), _ => c.rng.next() as usize >> c.rng.below(64) };
+    let nb = 1 + c.rng.usize_below(4); let u = c.rng.next() as u32;
+    c.input_str("v", &format!("var={v} uint={u} bytes={nb}")); c.set_nontrivial(true);
+    let mut w: Vec<u8> = Vec::new();
+    nopanic("write_var_size_t", || write_var_size_t(&mut w, v))?.map_err(|e| bad("writer_err", format!("{e}")))?;
+    let mark = w.len();
+    nopanic("write_uint_bytes", || write_uint_bytes(&mut w, u, nb))?.map_err(|e| bad("writer_err", format!("{e}")))?;
+    let mut p = 0; let got = read_var(&w, &mut p); c.ev(2);
+    ensure!(got == Some(v) && p == mark, "var_size_roundtrip", "write_var_size_t({v}) -> {} parses as {got:?} using {p} of {mark} bytes", gen::hex(&w[..mark]));
+    let want = (u as u64 & ((1u64 << (8 * nb)) - 1)) as usize; let got = read_le(&w, &mut p, nb);
+    ensure!(got == Some(want) && p == w.len(), "uint_bytes_roundtrip", "write_uint_bytes({u}, {nb}) -> {} parses as {got:?}, want {want}", gen::hex(&w[mark..]));
+    ensure!(write_uint_bytes(&mut w, u, if c.rng.bool() { 0 } else { 5 + c.rng.usize_below(4) }).is_err(), "uint_bytes_roundtrip", "byte count outside 1..=4 accepted");
+    Ok(())
+}
+
+// ---- type selection / cost helpers of compression_types.rs
+fn types_case(c: &mut Case) -> Res {
+    let d = match c.rng.below(5) { 4 => 1 + c.rng.usize_below(12), 0 => *c.rng.pick(&[1usize, 2, 9, 10, 257, 258, 65535, 65536, 65793, 65794, (1 << 24) - 1, 1 << 24, (1 << 24) + 1, 1 << 30]), 1 => 1 + c.rng.usize_below(300), 2 => 1 + c.rng.usize_below(70_000), _ => 1 + c.rng.usize_below(1 << 25) };
+    let l = match c.rng.below(3) { 0 => *c.rng.pick(&[2usize, 3, 5, 6, 33, 34, 35, 36, 64, 65, 66, 255, 256, 65535, 65536]), 1 => 2 + c.rng.usize_below(40), _ => 2 + c.rng.usize_below(70_000) };
+    c.input_str("d_l", &format!("distance={d} length={l}")); c.set_nontrivial(true);
+    if d > 16_777_215 { c.tag("distance_over_24bit"); }
+    let t = nopanic("choose_best_compression_type", || choose_best_compression_type(d, l))?;
+    c.ev(1);
+    match t {
+        None => c.note("choose:none", 1),
+        Some(t) => {
+            c.note(&format!("choose:{t:?}"), 1);
+            // "or None if impossible": no type has more than 24 distance bits
+            ensure!(d <= 16_777_215, "chosen_type_cannot_hold_distance", "choose_best_compression_type({d}, {l}) = Some({t:?}) but no back-reference type can hold a distance > 2^24-1");
+            // the library has two definitions of Far3Long's length range (>= 34 in CompressionType::supports / Match::far3_long, >= 5 in the reference layout): note only
+            if !t.supports(d, l) { c.note(&format!("chosen_not_supports:{t:?}"), 1); } else {
+                // a supported choice must be constructible and bit-level round-trippable
+                let m = match t { CompressionType::RLE => Match::rle(0x41, l as u8), CompressionType::NearShort => Match::near_short(d as u8, l as u8), CompressionType::Far1Short => Match::far1_short(d as u16, l as u8), CompressionType::Far2Short => Match::far2_short(d as u32, l as u8),
+                    CompressionType::Far2Long => if l <= 65535 { Match::far2_long(d as u16, l as u16) } else { return Ok(()) }, CompressionType::Far3Long => Match::far3_long(d as u32, l as u32), _ => return Ok(()) };
+                let m = match m { Ok(m) => m, Err(e) => return fail("chosen_type_ctor_refused", format!("choose_best_compression_type({d}, {l}) = {t:?} (supports() = true) but the Match constructor refuses: {e}")) };
+                let (buf, wrote) = match nopanic("encode_matches", || encode_matches(std::slice::from_ref(&m)))? { Ok(v) => v, Err(e) => return fail("encode_err", format!("{m:?}: {e}")) };
+                let oh = calculate_encoding_overhead(&m); let eff = calculate_compression_efficiency(&m); let ratio = calculate_theoretical_compression_ratio(std::slice::from_ref(&m));
+                c.note(if oh == wrote { "overhead_eq_bits" } else { "overhead_ne_bits" }, 1); c.note(if eff.is_finite() && ratio.is_finite() { "cost_finite" } else { "cost_nonfinite" }, 1);
+                match nopanic("decode_matches", || decode_matches(&buf))? { Ok((ms, _)) => { c.ev(1); ensure!(ms.first() == Some(&m), "roundtrip_mismatch", "{m:?} decoded as {:?}", ms.first()); } Err(e) => return fail("decode_err", format!("{m:?}: {e}")) }
+            }
+        }
+    }
+    Ok(())
+}
+
+// ---- local matcher: every reported match must be a real back-reference into the bytes fed so far
+fn lm_cfg(name: &str) -> LocalMatcherConfig { match name { "fast" => LocalMatcherConfig::fast_compression(), "max" => LocalMatcherConfig::max_compression(), "realtime" => LocalMatcherConfig::realtime(), "tinywin" => LocalMatcherConfig { window_size: 64, ..Default::default() }, _ => LocalMatcherConfig::default() } }
+fn localmatch_case(c: &mut Case, name: &str) -> Res {
+    let cfg = lm_cfg(name);
+    let fam = c.rng.usize_below(NFAM); c.input_str("fam", fam_name(fam));
+    let x = gen_payload(c, fam, 1500);
+    c.set_nontrivial(false);
+    if x.len() < 8 { return Ok(()); }
+    let pool = match SecureMemoryPool::new(SecurePoolConfig::small_secure()) { Ok(p) => p, Err(e) => return inconclusive(format!("pool: {e}")) };
+    let mk = |pool: &Arc<SecureMemoryPool>| LocalMatcher::new(cfg.clone(), pool.clone());
+    let (mut a, mut b) = match (nopanic("LocalMatcher::new", || mk(&pool))?, mk(&pool)) { (Ok(a), Ok(b)) => (a, b), _ => { c.note("ctor_err", 1); return Ok(()); } };
+    // a: fed with add_bytes in chunks, b: fed byte by byte; queried at the same positions
+    let nq = 1 + c.rng.usize_below(12); let mut qs: Vec<usize> = (0..nq).map(|_| 1 + c.rng.usize_below(x.len() - 1)).collect(); qs.sort(); qs.dedup();
+    let whole = c.rng.chance(1, 4); // the module example feeds the whole input first
+    c.input_str("queries", &format!("{qs:?} whole={whole}"));
+    let (mut fed, mut found) = (0usize, 0u64);
+    if whole { nopanic("add_bytes", || a.add_bytes(&x, 0))?.map_err(|e| bad("add_err", format!("{e}")))?; for (i, &by) in x.iter().enumerate() { nopanic("add_byte", || b.add_byte(by, i))?.map_err(|e| bad("add_err", format!("{e}")))?; } fed = x.len(); }
+    for &q in &qs {
+        if fed < q { nopanic("add_bytes", || a.add_bytes(&x[fed..q], fed))?.map_err(|e| bad("add_err", format!("add_bytes: {e}")))?; for i in fed..q { nopanic("add_byte", || b.add_byte(x[i], i))?.map_err(|e| bad("add_err", format!("add_byte: {e}")))?; } fed = q; }
+        ensure!(a.window_size() == b.window_size() && a.window_size() == fed.min(cfg.window_size) && a.is_window_full() == (fed >= cfg.window_size), "window_size", "after {fed} bytes: window_size {} / {} (limit {}), full={}", a.window_size(), b.window_size(), cfg.window_size, a.is_window_full());
+        if let Err(e) = nopanic("validate", || a.validate())? { return fail("matcher_invalid", format!("validate() after {fed} bytes: {e}")); }
+        let maxl = *c.rng.pick(&[3usize, 8, 40, 300, 100_000]);
+        let ma = match nopanic("find_matches", || a.find_matches(&x, q, maxl))? { Ok(m) => m, Err(e) => { c.note("find_err", 1); c.log(format!("{e}")); continue; } };
+        let mb = match nopanic("find_matches", || b.find_matches(&x, q, maxl))? { Ok(m) => m, Err(_) => { c.note("find_err", 1); continue; } };
+        c.ev(1 + ma.len() as u64);
+        ensure!(ma == mb, "add_bytes_vs_add_byte", "at {q} (max {maxl}): fed by add_bytes -> {:?}; fed by add_byte -> {:?}", ma.iter().map(|m| (m.distance, m.length)).collect::<Vec<_>>(), mb.iter().map(|m| (m.distance, m.length)).collect::<Vec<_>>());
+        for m in &ma {
+            found += 1;
+            let okr = m.input_position == q && m.distance >= 1 && m.distance <= q && m.length >= 1 && q + m.length <= x.len() && m.length <= maxl.max(1);
+            ensure!(okr, "local_match_range", "at {q} (max {maxl}, input len {}): {m:?}", x.len());
+            let bad_i = (0..m.length).find(|&i| x[q + i] != x[q + i - m.distance]);
+            ensure!(bad_i.is_none(), "local_match_wrong", "at {q}: match distance {} length {} is not a copy: byte {} differs ({:?})", m.distance, m.length, bad_i.unwrap_or(0), m.compression_type);
+            if !m.compression_type.supports(m.distance, m.length) { c.note(&format!("type_not_supports:{:?}", m.compression_type), 1); }
+            if ma.len() >= 2 { let _ = ma[0].is_better_than(&ma[1]); }
+        }
+    }
+    let st = a.stats(); c.note("searches", st.searches_performed); let _ = (st.match_success_ratio(), st.search_efficiency(), a.config().window_size);
+    // clear(): back to the empty state, then usable again from position 0
+    a.clear(); ensure!(a.window_size() == 0 && !a.is_window_full(), "window_size", "after clear(): window_size {}", a.window_size());
+    let k = x.len().min(200); nopanic("add_bytes", || a.add_bytes(&x[..k], 0))?.map_err(|e| bad("add_err", format!("after clear: {e}")))?;
+    if k < x.len() { if let Ok(ms) = nopanic("find_matches", || a.find_matches(&x, k, 300))? { for m in &ms { found += 1; let okr = m.distance >= 1 && m.distance <= k && k + m.length <= x.len(); ensure!(okr && (0..m.length).all(|i| x[k + i] == x[k + i - m.distance]), "local_match_wrong", "after clear() + {k} bytes: {m:?} is not a copy"); } } }
+    a.reset_stats();
+    c.note("matches", found); c.set_nontrivial(found > 0);
+    Ok(())
+}
+
+// ---- compression::suffix_array (EnhancedSuffixArray) against naive search
+fn sa_cfg(name: &str) -> SuffixArrayConfig { match name { "dict" => SuffixArrayConfig::for_dictionary_compression(), "large" => SuffixArrayConfig::for_large_text(), "realtime" => SuffixArrayConfig::for_realtime(), _ => SuffixArrayConfig::default() } }
+fn sarray_case(c: &mut Case, name: &str) -> Res {
+    let k = *c.rng.pick(&[0u32, 2, 5, 8, 9, 10, 12]); let n = *c.rng.pick(&[0usize, 1, 2, 3, 17, 100, 255, 256, 257, 700]); let n = if c.rng.bool() { n } else { c.rng.usize_below(900) };
+    let text = gen::bytes_kind(&mut c.rng, k % gen::BYTE_KINDS, n); c.input_str("kind", gen::byte_kind_name(k % gen::BYTE_KINDS)); c.input("text", &text);
+    c.set_nontrivial(false);
+    let comp = match nopanic("SuffixArrayCompressor::new", || SuffixArrayCompressor::new(sa_cfg(name)))? { Ok(s) => s, Err(e) => return inconclusive(format!("pool: {e}")) };
+    let _ = (comp.config().compute_lcp, comp.memory_pool().is_some());
+    let sa = match nopanic("build_suffix_array", || comp.build_suffix_array(&text))? { Ok(s) => s, Err(e) => { c.note("build_err", 1); c.log(format!("{e}")); return Ok(()); } };
+    c.set_nontrivial(n >= 2);
+    ensure!(sa.text_len() == n && sa.len() == n && sa.is_empty() == (n == 0), "sa_len", "text len {n}: text_len {} len {} is_empty {}", sa.text_len(), sa.len(), sa.is_empty());
+    let mut want: Vec<usize> = (0..n).collect(); want.sort_by(|&a, &b| text[a..].cmp(&text[b..]));
+    let got: Vec<Option<usize>> = (0..n).map(|r| sa.suffix_at_rank(r)).collect(); c.ev(1);
+    if let Some(r) = (0..n).find(|&r| got[r] != Some(want[r])) { return fail("sa_order", format!("rank {r}: suffix_at_rank = {:?}, sorted suffixes give {}", got[r], want[r])); }
+    ensure!(sa.suffix_at_rank(n).is_none(), "sa_len", "suffix_at_rank({n}) is Some for a text of {n} bytes");
+    if sa_cfg(name).compute_lcp { for r in 1..n { let (a, b) = (want[r - 1], want[r]); let l = text[a..].iter().zip(text[b..].iter()).take_while(|(p, q)| p == q).count(); let g = sa.lcp_at(r); ensure!(g == Some(l), "sa_lcp", "lcp_at({r}) = {g:?}, suffixes {a} and {b} share {l} bytes"); } c.ev(1); } else { c.note(if sa.lcp_at(0).is_none() { "lcp_absent" } else { "lcp_present" }, 1); }
+    for _ in 0..12 {
+        let pat: Vec<u8> = if n > 0 && c.rng.chance(3, 4) { let s = c.rng.usize_below(n); let l = 1 + c.rng.usize_below(8.min(n - s)); let mut p = text[s..s + l].to_vec(); if c.rng.chance(1, 5) { p.push(c.rng.next() as u8); } p } else { let l = c.rng.usize_below(4); c.rng.bytes(l) };
+        let naive: Vec<usize> = if pat.is_empty() { vec![] } else { (0..n.saturating_sub(pat.len() - 1)).filter(|&i| text[i..].starts_with(&pat)).collect() };
+        let f = nopanic("find_pattern", || sa.find_pattern(&text, &pat))?; let cnt = sa.count_pattern(&text, &pat); let (lo, hi) = sa.find_pattern_range(&text, &pat); c.ev(3);
+        ensure!(f == naive, "sa_find_pattern", "pattern {}: find_pattern {:?}, naive {:?}", gen::hex(&pat), &f[..f.len().min(8)], &naive[..naive.len().min(8)]);
+        ensure!(cnt == naive.len(), "sa_find_pattern", "pattern {}: count_pattern {cnt}, naive {}", gen::hex(&pat), naive.len());
+        ensure!(hi >= lo && hi - lo == naive.len() && hi <= n, "sa_find_pattern", "pattern {}: find_pattern_range ({lo}, {hi}), naive count {}", gen::hex(&pat), naive.len());
+    }
+    let _ = (sa.stats().final_memory_used, sa.memory_usage(), sa.compression_ratio());
+    Ok(())
+}
+
+// ---- SuffixArrayDictionary: find_all_matches, the concurrent wrapper, serialize/deserialize/save/load
+fn dict_text_and_cfg(c: &mut Case) -> (Vec<u8>, SuffixArrayDictionaryConfig) {
+    let k = *c.rng.pick(&[10u32, 0, 5, 9, 12, 8]); let dlen = 16 + c.rng.usize_below(5000);
+    let t = gen::bytes_kind(&mut c.rng, k, dlen); c.input_str("dict_kind", gen::byte_kind_name(k)); c.input("dict_text", &t);
+    let cfg = SuffixArrayDictionaryConfig { min_frequency: *c.rng.pick(&[1u32, 2, 4]), ..Default::default() };
+    (t, cfg)
+}
+fn dict_queries_case(c: &mut Case) -> Res {
+    let (text, cfg) = dict_text_and_cfg(c); c.set_nontrivial(false);
+    let (minp, maxp) = (cfg.min_pattern_length, cfg.max_pattern_length);
+    let mut d = match nopanic("SuffixArrayDictionary::new", || SuffixArrayDictionary::new(&text, cfg.clone()))? { Ok(d) => d, Err(e) => { c.note("dict_build_err", 1); c.log(format!("{e}")); return Ok(()); } };
+    let cd = match nopanic("ConcurrentSuffixArrayDictionary::new", || ConcurrentSuffixArrayDictionary::new(&text, cfg.clone()))? { Ok(d) => d, Err(e) => return fail("concurrent_ctor", format!("plain constructor accepted, concurrent wrapper refused: {e}")) };
+    let dt = d.dictionary_text().to_vec(); let _ = d.is_external_mode();
+    let mut hits = 0u64;
+    for _ in 0..10 {
+        let s = c.rng.usize_below(dt.len()); let l = (minp.max(1) + c.rng.usize_below(30)).min(dt.len() - s); let mut pat = dt[s..s + l].to_vec(); if c.rng.chance(1, 5) && !pat.is_empty() { let i = c.rng.usize_below(pat.len()); pat[i] ^= 0x55; }
+        let maxm = *c.rng.pick(&[0usize, 1, 2, 5, 1000]);
+        let ms = match nopanic("find_all_matches", || d.find_all_matches(&pat, maxm))? { Ok(m) => m, Err(e) => { c.note("find_all_err", 1); c.log(format!("{e}")); continue; } };
+        let naive: Vec<usize> = if pat.is_empty() { vec![] } else { (0..dt.len().saturating_sub(pat.len() - 1)).filter(|&i| dt[i..].starts_with(&pat)).collect() };
+        c.ev(1);
+        for m in &ms { ensure!(m.length == pat.len() && dt.get(m.dict_position..m.dict_position + m.length) == Some(&pat[..]), "find_all_wrong", "pattern {} (len {}): reported occurrence at {} length {} is not one", gen::abbrev(&pat), pat.len(), m.dict_position, m.length); }
+        let mut ps: Vec<usize> = ms.iter().map(|m| m.dict_position).collect(); let sorted = ps.windows(2).all(|w| w[0] <= w[1]); c.note(if sorted { "find_all_sorted" } else { "find_all_unsorted" }, 1); ps.sort(); ps.dedup();
+        ensure!(ps.len() == ms.len(), "find_all_wrong", "pattern {}: duplicate positions among {} matches", gen::abbrev(&pat), ms.len());
+        if pat.len() >= minp && pat.len() <= maxp { ensure!(ms.len() == naive.len().min(maxm), "find_all_count", "pattern {} (len {}): {} matches returned, the dictionary text contains {} occurrences, max_matches {maxm}", gen::abbrev(&pat), pat.len(), ms.len(), naive.len()); hits += ms.len() as u64; }
+        else { ensure!(ms.is_empty(), "find_all_count", "pattern length {} outside [{minp}, {maxp}] returned {} matches", pat.len(), ms.len()); }
+    }
+    // wrapper == plain, and the reported match is a real one
+    for _ in 0..10 {
+        let inp: Vec<u8> = { let s = c.rng.usize_below(dt.len()); let l = (1 + c.rng.usize_below(120)).min(dt.len() - s); let mut v = dt[s..s + l].to_vec(); let e = c.rng.usize_below(6); v.extend(c.rng.bytes(e)); v };
+        let pos = if c.rng.chance(1, 4) { c.rng.usize_below(inp.len() + 2) } else { 0 }; let maxl = *c.rng.pick(&[4usize, 16, 256, 100_000]);
+        let a = nopanic("find_longest_match", || d.find_longest_match(&inp, pos, maxl))?; let b = nopanic("Concurrent::find_longest_match", || cd.find_longest_match(&inp, pos, maxl))?;
+        c.ev(1);
+        let key = |r: &zipora::error::Result<Option<zipora::compression::dict_zip::PatternMatch>>| match r { Ok(Some(m)) => format!("Some(len {}, dict {}, in {})", m.length, m.dict_position, m.input_position), Ok(None) => "None".into(), Err(_) => "Err".into() };
+        ensure!(key(&a) == key(&b), "concurrent_vs_plain", "find_longest_match(input len {}, pos {pos}, max {maxl}): plain {} wrapper {}", inp.len(), key(&a), key(&b));
+        if let Ok(Some(m)) = a { hits += 1; let ok = pos + m.length <= inp.len() && dt.get(m.dict_position..m.dict_position + m.length) == Some(&inp[pos..pos + m.length]); ensure!(ok, "dict_match_wrong", "find_longest_match(input {} pos {pos}): length {} at dict {} is not an occurrence", gen::abbrev(&inp), m.length, m.dict_position); }
+    }
+    let st = d.match_stats().clone(); let _ = (st.cache_hit_ratio(), st.avg_search_time_us(), d.cache_hit_ratio(), cd.match_stats().map(|s| s.total_searches).unwrap_or(0)); d.reset_stats();
+    ensure!(d.match_stats().total_searches == 0, "reset_stats", "match_stats().total_searches = {} after reset_stats()", d.match_stats().total_searches);
+    c.set_nontrivial(hits > 0);
+    Ok(())
+}
+fn pz_new(c: &mut Case, dict: SuffixArrayDictionary, cfg: &PaZipCompressorConfig) -> Result<Option<PaZipCompressor>, Fail> {
+    let pool = match SecureMemoryPool::new(SecurePoolConfig::small_secure()) { Ok(p) => p, Err(e) => return Err(Fail { oracle: "inconclusive_pool".into(), detail: format!("{e}") }) };
+    match nopanic("PaZipCompressor::new", || PaZipCompressor::new(dict, cfg.clone(), pool))? { Ok(p) => Ok(Some(p)), Err(e) => { c.note("ctor_err", 1); c.log(format!("{e}")); Ok(None) } }
+}
+fn pz_comp(c: &mut Case, pz: &mut PaZipCompressor, x: &[u8], what: &str) -> Result<Option<(Vec<u8>, PzStats)>, Fail> {
+    let mut z = Vec::new();
+    match catch(|| pz.compress(x, &mut z)) { Err(p) => Err(bad(&p.class(), format!("{what}: compress panicked at {}: {}", p.loc, p.msg))), Ok(Err(e)) => { c.note("compress_err", 1); c.log(format!("{e}")); Ok(None) } Ok(Ok(st)) => Ok(Some((z, st))) }
+}
+fn pz_dec(c: &mut Case, pz: &mut PaZipCompressor, z: &[u8], x: &[u8], what: &str) -> Res { let mut d = Vec::new(); let r = catch(|| pz.decompress(z, &mut d)); dec_res(c, what, x, z.len(), r.map(|r| r.map(|_| d))) }
+/// dictionary stored externally (serialize / save_to_file) and loaded again: either side must decode what the other side wrote
+fn pazip_serde_case(c: &mut Case, via_file: bool) -> Res {
+    let (text, cfg) = dict_text_and_cfg(c);
+    let mut x = Vec::new(); let want = 100 + c.rng.usize_below(2000);
+    while x.len() < want { if c.rng.chance(3, 4) { let a = c.rng.usize_below(text.len()); let n = (6 + c.rng.usize_below(200)).min(text.len() - a); x.extend_from_slice(&text[a..a + n]); } else { let n = 1 + c.rng.usize_below(12); let f = c.rng.bytes(n); x.extend(f); } }
+    c.input("x", &x); let preset = *c.rng.pick(&["default", "fast", "high", "realtime"]); c.input_str("preset", preset); c.input_str("via", if via_file { "file" } else { "bytes" });
+    c.set_nontrivial(false);
+    let dict = match nopanic("SuffixArrayDictionary::new", || SuffixArrayDictionary::new(&text, cfg))? { Ok(d) => d, Err(e) => { c.note("dict_build_err", 1); c.log(format!("{e}")); return Ok(()); } };
+    let dict2 = if via_file {
+        let path = std::env::temp_dir().join(format!("zv_c02_{}_{:016x}.dict", std::process::id(), c.rng.next()));
+        let r = nopanic("save_to_file", || dict.save_to_file(&path))?; if let Err(e) = r { let _ = std::fs::remove_file(&path); c.note("save_err", 1); c.log(format!("{e}")); return Ok(()); }
+        let l = nopanic("load_from_file", || SuffixArrayDictionary::load_from_file(&path)); let _ = std::fs::remove_file(&path);
+        match l? { Ok(d) => d, Err(e) => return fail("dict_load_err", format!("load_from_file(save_to_file(dict of {} B)): {e}", dict.dictionary_size())) }
+    } else {
+        let ser = match nopanic("serialize", || dict.serialize())? { Ok(s) => s, Err(e) => { c.note("serialize_err", 1); c.log(format!("{e}")); return Ok(()); } };
+        match nopanic("deserialize", || SuffixArrayDictionary::deserialize(&ser))? { Ok(d) => d, Err(e) => return fail("dict_load_err", format!("deserialize(serialize(dict of {} B; {} B serialized)): {e}", dict.dictionary_size(), ser.len())) }
+    };
+    c.ev(1); ensure!(dict2.dictionary_text() == dict.dictionary_text(), "dict_load_text", "loaded dictionary text differs: {}", diff(dict2.dictionary_text(), dict.dictionary_text()));
+    let pcfg = pazip_cfg(preset);
+    let (mut a, mut b) = match (pz_new(c, dict, &pcfg)?, pz_new(c, dict2, &pcfg)?) { (Some(a), Some(b)) => (a, b), _ => return Ok(()) };
+    if let Some((z, _)) = pz_comp(c, &mut a, &x, "original dictionary")? { pz_dec(c, &mut b, &z, &x, "compressed with the original dictionary, decompressed with the loaded one")?; c.set_nontrivial(true); }
+    if let Some((z, _)) = pz_comp(c, &mut b, &x, "loaded dictionary")? { pz_dec(c, &mut a, &z, &x, "compressed with the loaded dictionary, decompressed with the original one")?; pz_dec(c, &mut b, &z, &x, "loaded dictionary, same object")?; }
+    Ok(())
+}
+/// PaZipCompressorConfig::balanced; a clone / a stats reset between compress and decompress must not matter
+fn pazip_balanced_case(c: &mut Case) -> Res {
+    let fam = c.rng.usize_below(NFAM); c.input_str("fam", fam_name(fam)); let x = gen_payload(c, fam, 3000);
+    let train: Vec<u8> = if c.rng.bool() && !x.is_empty() { x.clone() } else { let l = 300 + c.rng.usize_below(3000); gen::related_bytes(&mut c.rng, &x, l) }; c.input("train", &train);
+    let dc = DictionaryBuilderConfig { target_dict_size: 2048, max_dict_size: 4096, validate_result: true, sample_ratio: 1.0, use_parallel: false, enable_progress: false, ..Default::default() };
+    c.set_nontrivial(false);
+    let dict = match nopanic("DictionaryBuilder::build", || DictionaryBuilder::with_config(dc).build(&train))? { Ok(d) => d, Err(e) => { c.note("dict_build_err", 1); c.log(format!("{e}")); return Ok(()); } };
+    let mut pz = match pz_new(c, dict, &PaZipCompressorConfig::balanced())? { Some(p) => p, None => return Ok(()) };
+    match nopanic("validate", || pz.validate())? { Ok(()) => c.note("validate_ok", 1), Err(_) => c.note("validate_err", 1) }
+    let (z, st) = match pz_comp(c, &mut pz, &x, "PaZip(balanced)")? { Some(v) => v, None => return Ok(()) };
+    let mut twin = pz.clone();
+    ensure!(pz.stats().bytes_processed >= st.bytes_processed || x.is_empty(), "stats", "stats().bytes_processed {} < {} returned by compress", pz.stats().bytes_processed, st.bytes_processed);
+    let _ = (pz.dictionary_stats().total_searches, pz.local_matcher_stats().searches_performed, pz.cache_stats().is_ok());
+    let mut sum = st.clone(); sum.merge(&st); ensure!(sum.bytes_processed == 2 * st.bytes_processed && sum.bytes_output == 2 * st.bytes_output && sum.compression_type_usage.iter().zip(st.compression_type_usage.iter()).all(|(a, b)| *a == 2 * *b), "stats_merge", "merge of {st:?} with itself gave {sum:?}");
+    pz.reset_stats(); ensure!(pz.stats().bytes_processed == 0, "stats", "bytes_processed {} after reset_stats()", pz.stats().bytes_processed);
+    pz_dec(c, &mut pz, &z, &x, "PaZip(balanced) after reset_stats()")?;
+    pz_dec(c, &mut twin, &z, &x, "PaZip(balanced): decompress by a clone taken after compress")?;
+    if let Some((z2, _)) = pz_comp(c, &mut twin, &x, "clone")? { pz_dec(c, &mut pz, &z2, &x, "compressed by the clone, decompressed by the original")?; }
+    c.set_nontrivial(!x.is_empty());
+    Ok(())
+}
+
+// ---- native SIMD LZ77 configured with a dictionary
+fn simd_dict_case(c: &mut Case) -> Res {
+    let (text, cfg) = dict_text_and_cfg(c);
+    let x = simd_payload(c);
+    let dict = match nopanic("SuffixArrayDictionary::new", || SuffixArrayDictionary::new(&text, cfg))? { Ok(d) => d, Err(e) => { c.note("dict_build_err", 1); c.set_nontrivial(false); c.log(format!("{e}")); return Ok(()); } };
+    let scfg = SimdLz77Config::with_dictionary(Arc::new(dict), Arc::new(text.clone()));
+    let mut s = match nopanic("SimdLz77Compressor::with_config", || Native::with(scfg))? { Ok(s) => s, Err(e) => { c.note("ctor_err", 1); c.set_nontrivial(false); c.log(format!("{e}")); return Ok(()); } };
+    ensure!(s.0.has_dictionary(), "has_dictionary", "compressor built from SimdLz77Config::with_dictionary reports has_dictionary() == false");
+    c.note(&format!("tier:{}", s.0.compression_tier().name()), 1); let _ = (s.0.compression_tier().performance_multiplier(), s.0.parallel_mode().stream_count(), s.0.config().dictionary_config.is_some());
+    let z = match comp_res(c, "compress_with_dictionary", catch(|| SimdLz77Compressor::compress_with_dictionary(&mut s.0, &x)))? { Some(z) => z, None => { c.set_nontrivial(false); return Ok(()); } };
+    let st = s.0.stats().clone(); let _ = (st.compression_ratio(), st.avg_compression_throughput(), st.avg_decompression_throughput(), st.simd_acceleration_ratio());
+    s.0.reset_stats(); let mut st2 = st; st2.reset(); ensure!(s.0.stats().total_compressions == 0 && st2.total_compressions == 0, "stats", "total_compressions not 0 after reset");
+    dec_res(c, "SimdLz77Compressor(with_dictionary)", &x, z.len(), catch(|| s.decompress(&z)))
+}
+
+// ---- real-time front end: builder, with_mode, set_mode
+const RT_MODES: [CompressionMode; 4] = [CompressionMode::UltraLowLatency, CompressionMode::LowLatency, CompressionMode::Balanced, CompressionMode::HighCompression];
+fn rt_roundtrip(c: &mut Case, rt: &tokio::runtime::Runtime, rtc: &RealtimeCompressor, x: &[u8], what: &str) -> Result<Option<Vec<u8>>, Fail> {
+    let f0 = rtc.stats().fallback_operations;
+    let z = catch(|| rt.block_on(async { rtc.compress_with_deadline(x, Instant::now() + Duration::from_secs(3600)).await })).map_err(|p| bad(&p.class(), format!("{what}: compress panicked at {}: {}", p.loc, p.msg)))?;
+    let z = match z { Ok(z) => z, Err(e) => { c.note("compress_err", 1); c.log(format!("{e}")); return Ok(None); } };
+    if rtc.stats().fallback_operations > f0 { c.note("wallclock_fallback", 1); }
+    let d = catch(|| rt.block_on(async { rtc.decompress(&z).await }));
+    dec_res(c, what, x, z.len(), d)?;
+    Ok(Some(z))
+}
+fn rt_ctor_case(c: &mut Case, how: &str) -> Res {
+    let mode = *c.rng.pick(&RT_MODES); let x = rt_payload(c); c.set_nontrivial(false);
+    let rtc = if how == "with_mode" { c.input_str("cfg", &format!("with_mode({mode:?})")); nopanic("RealtimeCompressor::with_mode", || RealtimeCompressor::with_mode(mode))? } else {
+        let (k, dl, fb, bs) = (1 + c.rng.usize_below(4), c.rng.bool(), c.rng.bool(), 1 + c.rng.usize_below(10)); c.input_str("cfg", &format!("builder mode={mode:?} conc={k} deadlines={dl} fallback={fb} batch={bs}"));
+        nopanic("RealtimeCompressorBuilder", || RealtimeCompressorBuilder::new().mode(mode).max_concurrent(k).enable_deadlines(dl).fallback_on_timeout(fb).batch_size(bs).build())? };
+    let rtc = match rtc { Ok(r) => r, Err(e) => { c.note("ctor_err", 1); c.log(format!("{e}")); return Ok(()); } };
+    let _ = (mode.max_memory_ratio(), rtc.can_meet_deadline(x.len(), Duration::from_millis(1)), rtc.stats().deadline_success_rate());
+    let rt = tokio_rt(false);
+    let ok = rt_roundtrip(c, &rt, &rtc, &x, &format!("realtime {how} {mode:?}"))?.is_some();
+    c.set_nontrivial(ok && !x.is_empty());
+    Ok(())
+}
+fn rt_set_mode_case(c: &mut Case) -> Res {
+    let m1 = *c.rng.pick(&RT_MODES); let m2 = *c.rng.pick(&RT_MODES); c.input_str("modes", &format!("{m1:?} -> {m2:?}"));
+    let x1 = rt_payload(c); let x2 = rt_payload(c); c.set_nontrivial(false);
+    let rtc = match nopanic("RealtimeCompressor::with_mode", || RealtimeCompressor::with_mode(m1))? { Ok(r) => r, Err(e) => { c.note("ctor_err", 1); c.log(format!("{e}")); return Ok(()); } };
+    let rt = tokio_rt(false);
+    let z1 = rt_roundtrip(c, &rt, &rtc, &x1, &format!("realtime {m1:?} before set_mode"))?;
+    match nopanic("set_mode", || rtc.set_mode(m2))? { Ok(()) => {} Err(e) => { c.note("set_mode_err", 1); c.log(format!("{e}")); return Ok(()); } }
+    // blocks written after the switch round-trip
+    let ok = rt_roundtrip(c, &rt, &rtc, &x2, &format!("realtime after set_mode({m1:?} -> {m2:?})"))?.is_some();
+    c.set_nontrivial(ok && !x2.is_empty());
+    // a block written BEFORE the switch: set_mode's documentation does not say whether it stays readable -> note only
+    if let Some(z1) = z1 { let d = catch(|| rt.block_on(async { rtc.decompress(&z1).await })); c.note(match d { Ok(Ok(ref d)) if *d == x1 => "earlier_block_after_switch:ok", Ok(Ok(_)) => "earlier_block_after_switch:wrong_data", Ok(Err(_)) => "earlier_block_after_switch:err", Err(_) => "earlier_block_after_switch:panic" }, 1); }
+    Ok(())
+}
+
+// ---- adaptive front end through default_with_requirements; factory selector; Huffman stored table
+fn adaptive_dwr_case(c: &mut Case) -> Res {
+    let req = PerformanceRequirements { speed_vs_quality: *c.rng.pick(&[0.0f64, 0.5, 1.0]), max_latency: *c.rng.pick(&[Duration::from_nanos(1), Duration::from_millis(100), Duration::from_secs(10)]), ..Default::default() };
+    c.input_str("req", &format!("svq={} lat={:?}", req.speed_vs_quality, req.max_latency));
+    let nblocks = 20 + c.rng.usize_below(120); let blocks = gen_blocks(c, nblocks, 400, false); c.set_nontrivial(false);
+    let ac = match nopanic("AdaptiveCompressor::default_with_requirements", || AdaptiveCompressor::default_with_requirements(req))? { Ok(a) => a, Err(e) => { c.note("ctor_err", 1); c.log(format!("{e}")); return Ok(()); } };
+    if c.rng.bool() { let s: Vec<(&[u8], &str)> = blocks.iter().take(4).enumerate().map(|(i, b)| (b.as_slice(), if i % 2 == 0 { "even" } else { "odd" })).collect(); let _ = nopanic("train", || ac.train(&s))?; c.note("trained", 1); c.note(&format!("profiles:{}", ac.profiles().len().min(3)), 1); } else { c.note(&format!("profiles:{}", ac.profiles().len().min(3)), 1); }
+    let mut zs = Vec::with_capacity(blocks.len());
+    for (i, b) in blocks.iter().enumerate() { zs.push(comp_res(c, &format!("adaptive(default_with_requirements) block {i}"), catch(|| ac.compress(b)))?); }
+    let mut ok = 0;
+    for (i, (b, z)) in blocks.iter().zip(zs.iter()).enumerate() { if let Some(z) = z { dec_res(c, &format!("adaptive(default_with_requirements) block {i}/{}", blocks.len()), b, z.len(), catch(|| ac.decompress(z)))?; ok += 1; } }
+    c.set_nontrivial(ok >= 1);
+    Ok(())
+}
+fn select_best_case(c: &mut Case) -> Res {
+    let req = PerformanceRequirements { speed_vs_quality: *c.rng.pick(&[0.0f64, 0.25, 0.5, 0.9, 1.0]), max_latency: *c.rng.pick(&[Duration::from_nanos(1), Duration::from_millis(1), Duration::from_secs(10), Duration::from_secs(100_000)]), max_memory: *c.rng.pick(&[0usize, 4096, 1 << 20, 1 << 30, usize::MAX / 4]), ..Default::default() };
+    c.input_str("req", &format!("svq={} lat={:?} mem={}", req.speed_vs_quality, req.max_latency, req.max_memory));
+    let fam = c.rng.usize_below(NFAM); let x = gen_payload(c, fam, 2048);
+    let alg = nopanic("CompressorFactory::select_best", || CompressorFactory::select_best(&req, &x))?;
+    c.note(&format!("selected:{}", alg_name(alg)), 1); let _ = (alg.compression_speed(), alg.compression_ratio(), alg.memory_usage());
+    // whatever the selector returns must be usable without training data (it skips the trained algorithms for that reason) -- Err from create stays a refusal
+    let t = if alg == Algorithm::Hybrid { Some(x.clone()) } else { None };
+    factory_case(c, alg, &x, t.as_deref())
+}
+fn huffman_tree_case(c: &mut Case) -> Res {
+    let fam = c.rng.usize_below(NFAM); let x = gen_payload(c, fam, 3000); let mode = *c.rng.pick(&["same", "other_full", "related_sup"]); let t = gen_training(c, mode, &x);
+    c.set_nontrivial(false);
+    let h = match nopanic("HuffmanCompressor::new", || HuffmanCompressor::new(&t))? { Ok(h) => h, Err(e) => { c.note("ctor_err", 1); c.log(format!("{e}")); return Ok(()); } };
+    let z = match comp_res(c, "HuffmanCompressor", catch(|| h.compress(&x)))? { Some(z) => z, None => return Ok(()) };
+    c.set_nontrivial(!x.is_empty());
+    if !x.is_empty() { let td = h.tree_data(); c.ev(1);
+        let stored = z.len() >= 4 && { let n = u32::from_le_bytes([z[0], z[1], z[2], z[3]]) as usize; n == td.len() && z.get(4..4 + n) == Some(td) };
+        ensure!(stored, "stored_table", "compressed frame does not carry tree_data() ({} B) behind its 4-byte size field; frame starts {}", td.len(), gen::hex(&z[..z.len().min(12)])); }
+    dec_res(c, "HuffmanCompressor (direct)", &x, z.len(), catch(|| h.decompress(&z)))
+}
+
+fn run_gap(ctx: &mut Ctx) {
+    for t in 0..8u8 { for idx in 0..ctx.n(25, 600) as u64 { ctx.case(&format!("refenc/{}", VARIANTS[t as usize]), "ref_single", idx, |c| refenc_case(c, Some(t))); } }
+    for idx in 0..ctx.n(150, 4000) as u64 { ctx.case("refenc/seq_mixed", "ref_seq", idx, |c| refenc_case(c, None)); }
+    for idx in 0..ctx.n(100, 3000) as u64 { ctx.case("refenc/primitives", "var_uint", idx, refenc_prims_case); }
+    for idx in 0..ctx.n(300, 8000) as u64 { ctx.case("types/choose_best", "grid", idx, types_case); }
+    for name in ["default", "fast", "max", "realtime", "tinywin"] { for idx in 0..ctx.n(40, 600) as u64 { ctx.case(&format!("localmatch/{name}"), "sound", idx, |c| localmatch_case(c, name)); } }
+    for name in ["default", "dict", "large", "realtime"] { for idx in 0..ctx.n(25, 400) as u64 { ctx.case(&format!("sarray/{name}"), "queries", idx, |c| sarray_case(c, name)); } }
+    for idx in 0..ctx.n(40, 600) as u64 { ctx.case("dict/queries", "find_all_concurrent", idx, dict_queries_case); }
+    for idx in 0..ctx.n(30, 400) as u64 { ctx.case("pazip/loaded_dict", "serde_bytes", idx, |c| pazip_serde_case(c, false)); }
+    for idx in 0..ctx.n(16, 200) as u64 { ctx.case("pazip/loaded_dict", "serde_file", idx, |c| pazip_serde_case(c, true)); }
+    for idx in 0..ctx.n(12, 300) as u64 { ctx.case("pazip/balanced", "clone_reset", idx, pazip_balanced_case); }
+    for idx in 0..ctx.n(8, 100) as u64 { ctx.case("simdlz77/with_dictionary", "dict", idx, simd_dict_case); }
+    for how in ["with_mode", "builder"] { for idx in 0..ctx.n(24, 400) as u64 { ctx.case(&format!("rt/{how}"), "ctor", idx, |c| rt_ctor_case(c, how)); } }
+    for idx in 0..ctx.n(30, 500) as u64 { ctx.case("rt/set_mode", "switch", idx, rt_set_mode_case); }
+    for idx in 0..ctx.n(6, 60) as u64 { ctx.case("adaptive/default_with_requirements", "stream", idx, adaptive_dwr_case); }
+    for idx in 0..ctx.n(40, 800) as u64 { ctx.case("factory/select_best", "selected", idx, select_best_case); }
+    for idx in 0..ctx.n(30, 600) as u64 { ctx.case("factory/huffman", "tree_data_framing", idx, huffman_tree_case); }
+}
+
 pub fn run(ctx: &mut Ctx) {
     if std::env::var("ZV_C02_DBG").is_ok() { run_dbg(ctx); return; }
     run_bits(ctx);
@@ -711,4 +1115,5 @@ pub fn run(ctx: &mut Ctx) {
     run_adaptive(ctx);
     run_pazip(ctx);
     run_simd(ctx);
+    run_gap(ctx);
 }
